@@ -322,6 +322,7 @@ func collect(pl *plan, t *target) (rets map[tkey]int64, expected map[tkey]tok, s
 		all = append(all, pl.self)
 	}
 	for _, s := range all {
+		sendErrs = append(sendErrs, s.odd...)
 		for _, r := range s.recs {
 			if r.Err != "" {
 				// the case becomes inconclusive; a failed request may still have been delivered
@@ -758,6 +759,48 @@ func runHidden(cls int) {
 	finish(id, "hidden-push", id, fired, tokCount(seq), r, map[string]any{"handled": order, "gate_fired": fired})
 }
 
+// setupBads creates the destinations every send to which fails at once: unknown
+// pid, terminated pid, unknown name, unknown alias, and a process whose bounded
+// mailbox is full in every queue (it is parked in a handler for the whole run).
+func setupBads() {
+	bads = append(bads,
+		badTarget{"unknown-pid", gen.PID{Node: node.Name(), ID: 1 << 40, Creation: node.Creation()}},
+		badTarget{"unknown-name", gen.Atom("c03-nobody")},
+		badTarget{"unknown-processid", gen.ProcessID{Name: "c03-nobody", Node: node.Name()}},
+		badTarget{"unknown-alias", gen.Alias{Node: node.Name(), ID: [3]uint64{1 << 40, 7, 7}, Creation: node.Creation()}},
+	)
+	if f, _ := actors.NewProbe("dead", probeHooks(false, false)); true {
+		if pid, err := node.Spawn(f, gen.ProcessOptions{}); err == nil {
+			node.Kill(pid)
+			if hk.WaitUntil(5*time.Second, func() bool { _, e := node.ProcessInfo(pid); return e != nil }) {
+				bads = append(bads, badTarget{"terminated-pid", pid})
+			}
+		}
+	}
+	f, _ := actors.NewProbe("sink", probeHooks(false, false))
+	sink, err := node.Spawn(f, gen.ProcessOptions{MailboxSize: 1})
+	if err != nil {
+		return
+	}
+	b := &blockCmd{Entered: make(chan struct{}), Release: make(chan struct{})} // never released
+	node.Send(sink, b)
+	if _, ok := recvT(b.Entered, 5*time.Second); !ok {
+		return
+	}
+	for _, pr := range []gen.MessagePriority{gen.MessagePriorityNormal, gen.MessagePriorityHigh, gen.MessagePriorityMax} {
+		node.SendWithPriority(sink, "filler", pr)
+	}
+	full := true
+	for _, pr := range []gen.MessagePriority{gen.MessagePriorityNormal, gen.MessagePriorityHigh, gen.MessagePriorityMax} {
+		if node.SendWithPriority(sink, "filler", pr) != gen.ErrProcessMailboxFull {
+			full = false
+		}
+	}
+	if full {
+		bads = append(bads, badTarget{"full-mailbox", sink})
+	}
+}
+
 func main() {
 	hk.InstallHook()
 	hk.Rule("batch (B): receiver parked inside a callback (busy) or idle with its woken runner goroutine parked at proc.run.enter/meta.enter before the first pick, while K goroutine/process/self senders and dying monitored helpers enqueue a seeded multiset of Max/High/Normal messages, requests, events, trapped exit signals, inspect requests, down notifications and log messages over pid/name/alias/ProcessID addressing; released after every send returned; non-trivial iff >=3 classes were pending together or >=2 senders interleaved (a,b,a) within one class in the handled order. flow (F): same senders against a running receiver under seeded yields at mpsc.push.*/proc.run.*; non-trivial iff >=1 contested pick (a higher class taken while a lower-class message whose send had returned before the previous callback ended was pending) or senders interleaved. hidden (H): directed schedule, non-trivial iff the gate fired. mpsc (Q): P producers on lib.QueueMPSC/QueueLimitMPSC, non-trivial iff the consumer saw producers interleaved. distinct = scenario x receiver kind x classes observed x interleaving/contested x stress")
@@ -777,6 +820,13 @@ func main() {
 		os.Exit(3)
 	}
 
+	setupBads()
+	hk.Note("unreachable_targets", func() (n []string) {
+		for _, b := range bads {
+			n = append(n, b.Name)
+		}
+		return
+	}())
 	runMPSCAll()
 	runHidden(clsU)
 	runHidden(clsS)
